@@ -175,8 +175,10 @@ def particle_cases(ctx, rnd, n_per_model):
             mB, mC, mD = [rnd.uniform(0.08, 0.2) for _ in range(3)]
             if model == "GS_rho":
                 mB, mC = 0.13957039, 0.1349768
-            below = model in ("BWR2", "BWR_below") and k % 2 == 1
+            below = model in ("BWR2", "BWR_below", "BWR_normal") and k % 2 == 1
             m0 = rnd.uniform(mB + mC + 0.05, 0.85) if not below else rnd.uniform(0.1, mB + mC - 0.01)
+            if below and model in ("BWR2", "BWR_normal"):
+                m0 = random.Random(ctx.seed * 7 + 131 * k + len(model)).uniform(0.08, 0.19)   # (own stream) really below the threshold of create_test_config's daughters (0.1 + 0.1), the docstring's example
             g0 = rnd.uniform(0.02, 0.3)
             params = {"J": J, "P": P, "mass": m0, "width": g0}
             plot_params = {}
@@ -210,7 +212,7 @@ def particle_cases(ctx, rnd, n_per_model):
                 m = rnd.uniform(m1 + m2 + 0.01, 0.89)
                 val = complex(np.array(part(tf.constant([m], dtype=tf.float64))).reshape(-1)[0])
                 # "below threshold" refers to the decay's ACTUAL daughter masses (create_test_config fixes them), not to mB, mC
-                below = model in ("BWR2", "BWR_below") and float(part.get_mass()) < m1 + m2
+                below = model in ("BWR2", "BWR_below", "BWR_normal") and float(part.get_mass()) < m1 + m2
             except Exception as e:
                 ctx.count("particle_model_error:%s" % model)
                 ctx.notes.append("model %s raised %r" % (model, e))
@@ -227,12 +229,14 @@ def particle_cases(ctx, rnd, n_per_model):
             elif model in ("BWR", "default"):
                 expr = "BWR %s %s %s %s %s %d %s" % (Rq(m), Rq(m0v), Rq(g0v), Rq(q), Rq(q0), L, Rq(d))
             elif model == "BWR2":
-                # Particle.__call__ passes |q0|2 = get_relative_p(m0)^2 (clamped at threshold)
-                expr = "BWR2 %s %s %s %s %s %d %s" % (Rq(m), Rq(m0v), Rq(g0v), Rq(q * q), Rq(q0 * q0), L, Rq(d))
+                # Particle.__call__ passes the q^2 of the amplitude, get_relative_p2 (NOT clamped at threshold): with m0 below
+                # threshold - the case the BWR2 docstring advertises - q0^2 < 0 and the value is finite (before the repair
+                # |q0|2 = get_relative_p(m0)^2 = 0 gave NaN for every m)
+                q2u = f1(grp2(T(m), T(m1), T(m2))); q02u = f1(grp2(T(m0v), T(m1), T(m2)))
+                expr = "BWR2 %s %s %s %s %s %d %s" % (Rq(m), Rq(m0v), Rq(g0v), Rq(q2u), Rq(q02u), L, Rq(d))
                 rt = 1e-8
-                if below:
-                    ctx.count("skipped:BWR2_below_q0=0")
-                    continue  # q0 = 0 at/below threshold: division by zero in the code (inf/nan), outside the documented domain
+                if below and not (math.isfinite(val.real) and math.isfinite(val.imag)):
+                    val = complex(1e300, 1e300)   # NaN/inf cannot be printed as a rational: any finite model value refutes the goal
             elif model == "BWR_below":
                 if below:
                     k_ = ((mtop - m3) - (m1 + m2)) / 2
@@ -245,6 +249,24 @@ def particle_cases(ctx, rnd, n_per_model):
             elif model == "BWR_normal":
                 expr = "BWR_normal_above %s %s %s %s %s %d %s" % (Rq(m), Rq(m0v), Rq(g0v), Rq(q * q), Rq(q0 * q0), L, Rq(d))
                 rt = 1e-8
+                if below:
+                    # m0 below threshold: the width is complex, sqrt(m0 Gamma) a complex square root (not in the real model);
+                    # tied to the amplitude path (get_amp fed with the decay's own unclamped q^2), which must be finite
+                    dec_ = part.decay[0]
+                    dat_ = {part: {"m": T(m)}}
+                    dc_ = {"|q|": dec_.get_relative_momentum(dat_, True), "|q0|": dec_.get_relative_momentum(dat_, False),
+                           "|q|2": dec_.get_relative_momentum2(dat_, True), "|q0|2": dec_.get_relative_momentum2(dat_, False)}
+                    va = c1(part.get_amp({"m": T(m)}, dc_))
+                    fin_ok = all(math.isfinite(x) for x in (val.real, val.imag, va.real, va.imag))
+                    ctx.count("model:BWR_normal:below")
+                    if fin_ok:
+                        stmt_ = "((Rabs (%s - %s) <= %s) /\\ (Rabs (%s - %s) <= %s))%%R" % (Rq(val.real), Rq(va.real), Rq(1e-9 * abs(va)), Rq(val.imag), Rq(va.imag), Rq(1e-9 * abs(va)))
+                    else:
+                        stmt_ = "(IZR 0 = 1)%R"
+                    cases.append(("pm_%s_%d" % (model, k), stmt_, "split; interval with (i_prec 90)" if fin_ok else "reflexivity",
+                                  {"function": "Particle(model=BWR_normal).__call__ (m0 below threshold) = amplitude path, finite",
+                                   "args": {"m": m, "m0": m0v, "g0": g0v, "m1": m1, "m2": m2, "L": L, "below_threshold": True}, "impl": str(val), "amplitude_path": str(va)}))
+                    continue
             elif model == "BWR_coupling":
                 expr = "BWR_coupling %s %s %s %s %d %s" % (Rq(m), Rq(m0v), Rq(g0v), Rq(q * q), L, Rq(d))
             elif model == "GS_rho":
@@ -297,7 +319,9 @@ def bwr_ls_cases(ctx, rnd, n):
         m0 = rnd.uniform(mf["B"] + mf["C"] + 0.2, 1.6); g0 = rnd.uniform(0.03, 0.3)
         res = {"R_BC": {"pair": "R_BC", "J": JR, "P": PR, "mass": m0, "width": g0, "model": "BWR_LS", "fix_bug1": fix}}
         fin = {"B": fb["B"], "C": fb["C"], "D": (0, -1)}
-        cfg = ampkit.three_body_config(M0, mf, res, top=(1, -1), fin=fin, decay_opts={"R_BC": {"p_break": True}})
+        # the documented decay option has_barrier_factor: False must not remove the resonance line shape (decay-level cases below)
+        has_bf = (k % 2 == 0)
+        cfg = ampkit.three_body_config(M0, mf, res, top=(1, -1), fin=fin, decay_opts={"R_BC": dict({"p_break": True}, **({} if has_bf else {"has_barrier_factor": False}))})
         config = ConfigLoader(cfg)
         amp = config.get_amplitude()
         part = [p for p in amp.decay_group.resonances if str(p) == "R_BC"][0]
@@ -318,6 +342,16 @@ def bwr_ls_cases(ctx, rnd, n):
                 else:
                     continue
             cases.append(("ls_%d_%d" % (k, i), cplx_stmt(expr, v, rtol=1e-9), TAC, meta))
+        if fix:
+            # decay level (the way an amplitude evaluates the model): g_ls_i * R_i(m), whatever has_barrier_factor says
+            c15_extra.set_g_ls(amp, random.Random(7919 * k + 1))  # own stream: the draws of the regular cases stay as they were
+            outs, gls, q2d, q02d, _ = c15_extra.decay_level(part, part.decay[0], m, mf)
+            for i, v in enumerate(vals):
+                if i < len(outs):
+                    cases.append(("lsd_%d_%d" % (k, i), cplx_stmt("ls_decay_amp_opt %s %s %s" % ("true" if has_bf else "false", c15_extra.Cq(gls[i]), c15_extra.Cq(v)), outs[i], rtol=1e-10), c15_extra.TAC,
+                                  {"function": "ParticleDecayLS.get_ls_amp(BWR_LS%s)" % c15_extra.hbf_name(has_bf),
+                                   "args": {"m": m, "m0": m0, "g0": g0, "ls": ls, "coupling": i, "g_ls": str(gls[i]), "R_i": str(v), "has_barrier_factor": has_bf}, "impl": str(outs[i])}))
+            ctx.count("BWR_LS:decay_level%s" % c15_extra.hbf_name(has_bf))
     # GS_rho with configured daughter masses (documented options c_daug2Mass / c_daug3Mass)
     import tf_pwa.breit_wigner as bw
     from tf_pwa.utils import create_test_config
@@ -367,6 +401,75 @@ def sympy_dom_cases(ctx, rnd, n):
     return cases
 
 
+def radius_cases(ctx, rnd, n):
+    """configured barrier radius d (constrains: decay: decay_d, list form and per-particle dict form): the numeric line shape,
+    Particle.__call__, and the sympy denominator all use the configured d (not the default 3.0)"""
+    import sympy
+    import tensorflow as tf
+    from tf_pwa.config_loader import ConfigLoader
+    from tf_pwa.amp.core import get_relative_p as grp, get_relative_p2 as grp2
+    from tf_pwa.formula import _flatten
+    cases = []
+    for model in ("BWR", "BWR2", "BWR_coupling", "BWR_LS"):
+        for k in range(n):
+            d = rnd.choice([1.0, 1.5, 2.0, 5.0])
+            form = "dict" if k % 2 == 0 else "list"
+            m1, m2 = rnd.uniform(0.08, 0.2), rnd.uniform(0.08, 0.2)
+            m0 = rnd.uniform(m1 + m2 + 0.1, 0.8); g0 = rnd.uniform(0.02, 0.2)
+            J = 1 if model == "BWR_LS" else rnd.choice([1, 2]); P = 1 if J % 2 == 0 else -1
+            rdic = {"J": J, "P": P, "mass": m0, "width": g0, "model": model}
+            if model == "BWR_LS":
+                rdic["fix_bug1"] = True
+            dic = {"data": {"dat_order": ["B", "C", "D"]},
+                   "decay": {"A": [["R_BC", "D"]], "R_BC": ["B", "C"]},
+                   "particle": {"$top": {"A": {"J": 0, "P": -1, "mass": 1.0}},
+                                "$finals": {"B": {"J": 0, "P": -1, "mass": m1}, "C": {"J": 0, "P": -1, "mass": m2}, "D": {"J": 0, "P": -1, "mass": 0.1}},
+                                "R_BC": rdic},
+                   "constrains": {"decay": {"decay_d": {"R_BC": d} if form == "dict" else [3.0, d]}}}
+            config = ConfigLoader(dic)
+            part = [p for p in config.get_amplitude().decay_group.resonances if str(p) == "R_BC"][0]
+            dec = part.decay[0]
+            L = min(dec.get_l_list())
+            m = rnd.uniform(m1 + m2 + 0.02, 0.88)
+            m0v, g0v = f1(part.get_mass()), f1(part.get_width())
+            q = f1(grp(T(m), T(m1), T(m2))); q0 = f1(grp(T(m0v), T(m1), T(m2)))
+            q2 = f1(grp2(T(m), T(m1), T(m2))); q02 = f1(grp2(T(m0v), T(m1), T(m2)))
+            args = {"m": m, "m0": m0v, "g0": g0v, "m1": m1, "m2": m2, "L": L, "decay_d": d, "decay_d_form": form}
+            ctx.count("radius:%s:%s" % (model, form))
+            # (a) the configuration reaches the particle and its decay
+            cases.append(("rd_cfg_%s_%d" % (model, k), "(%s = %s /\\ %s = %s)%%R" % (Rq(float(getattr(part, "d", d))), Rq(d), Rq(float(dec.d)), Rq(d)), "split; reflexivity",
+                          {"function": "constrains.decay.decay_d (%s form) -> particle.d, decay.d" % form, "args": args, "impl": str((getattr(part, "d", None), dec.d))}))
+            # (b) numeric line shape at the configured radius
+            v = part(T(m))
+            val = c1(v[0]) if model == "BWR_LS" else c1(v)
+            rt = 1e-10
+            if model == "BWR":
+                expr = "BWR %s %s %s %s %s %d %s" % (Rq(m), Rq(m0v), Rq(g0v), Rq(q), Rq(q0), L, Rq(d))
+            elif model == "BWR2":
+                expr = "BWR2 %s %s %s %s %s %d %s" % (Rq(m), Rq(m0v), Rq(g0v), Rq(q2), Rq(q02), L, Rq(d)); rt = 1e-8
+            elif model == "BWR_coupling":
+                expr = "BWR_coupling %s %s %s %s %d %s" % (Rq(m), Rq(m0v), Rq(g0v), Rq(q2), L, Rq(d))
+            else:
+                ls = [int(l) for l, _ in dec.get_ls_list()]
+                expr = "BWR_LS true %s %s %s %s %s [%s]%%nat [] %s 0" % (Rq(m), Rq(m0v), Rq(g0v), Rq(q2), Rq(q02), "; ".join(map(str, ls)), Rq(d)); rt = 1e-9
+            cases.append(("rd_num_%s_%d" % (model, k), cplx_stmt(expr, val, rtol=rt), TAC,
+                          {"function": "Particle(model=%s, decay_d %s form).__call__" % (model, form), "args": args, "impl": str(val)}))
+            # (c) symbolic denominator = reciprocal of the numeric line shape at the SAME radius
+            var = part.get_sympy_var()
+            dom = part.get_sympy_dom(*var)
+            nums = [float(i) for i in _flatten(part.get_num_var())]
+            dv = complex(sympy.N(dom.subs(dict(zip(_flatten(var[1:]), nums))).subs({var[0]: m}), 30))
+            if model == "BWR_LS":
+                # R_0 = g_0/den: the documented numerator g_0 = (q/q0)^l B'_l(q,q0,d) (one coupling, gamma_0 = 1)
+                g_num = f1(part.get_barrier_factor([ls[0]], T(q2), T(q02), d)[0])
+                dv = dv / g_num
+            stmt = "(Rabs (%s * %s - %s * %s - 1) <= %s /\\ Rabs (%s * %s + %s * %s) <= %s)%%R" % (
+                Rq(val.real), Rq(dv.real), Rq(val.imag), Rq(dv.imag), Rq(1e-8), Rq(val.real), Rq(dv.imag), Rq(val.imag), Rq(dv.real), Rq(1e-8))
+            cases.append(("rd_dom_%s_%d" % (model, k), stmt, "split; interval with (i_prec 90)",
+                          {"function": "get_sympy_dom(%s) at the configured decay_d (%s form)" % (model, form), "args": args, "impl": str(val), "dom": str(dv)}))
+    return cases
+
+
 def run(ctx):
     rnd = random.Random(ctx.seed * 1000003 + 15)
     ctx.rule = ("seeded random masses above (and for BWR2/BWR_below/Flatte/Bprime_q2 below) threshold, L=0..8, d in {1,3,5}; one Coq-Interval goal per "
@@ -379,6 +482,7 @@ def run(ctx):
     ctx.log("particle cases", len(cases))
     cases += sympy_dom_cases(ctx, rnd, 2 if ctx.tier == "quick" else 10)
     cases += bwr_ls_cases(ctx, rnd, 10 if ctx.tier == "quick" else 60)
+    cases += radius_cases(ctx, random.Random(ctx.seed * 1000003 + 1501), 2 if ctx.tier == "quick" else 8)
     cases += c15_extra.cases(ctx, rnd, ctx.tier == "quick")  # BWR_LS2, MultiBWR
     cases += c15_extra.known_cases(ctx)  # MultiBW = documented combination of constant-width BW (fixed in /repo 4a6337b)
     ctx.log("sympy cases", len(cases))
